@@ -631,9 +631,12 @@ mod globset {
 		v.as_array().unwrap().iter().map(|x| x.as_str().unwrap().to_string()).collect()
 	}
 
+	/// a path of the spec: relative to the origin, or - first component "OUT" - in a sibling of it
 	fn rel(base: &Path, comps: &Value) -> PathBuf {
-		let mut p = base.to_path_buf();
-		for c in comps.as_array().unwrap() {
+		let comps = comps.as_array().unwrap();
+		let out = comps.first().and_then(Value::as_str) == Some("OUT");
+		let mut p = if out { base.parent().unwrap().join("elsewhere") } else { base.to_path_buf() };
+		for c in comps.iter().skip(usize::from(out)) {
 			p.push(c.as_str().unwrap());
 		}
 		p
@@ -642,6 +645,8 @@ mod globset {
 	pub async fn run(case: &Value, scratch: &Path) -> Value {
 		let tmp = tempfile::tempdir_in(scratch).unwrap();
 		let origin = tmp.path().canonicalize().unwrap().join("proj");
+		std::fs::create_dir_all(origin.parent().unwrap().join("elsewhere/sub")).unwrap();
+		std::fs::create_dir_all(origin.parent().unwrap().join("elsewhere/test")).unwrap();
 		for d in ["test/sub", "tests/sub"] {
 			std::fs::create_dir_all(origin.join(d)).unwrap();
 		}
@@ -667,7 +672,7 @@ mod globset {
 			Ok(f) => f,
 			Err(e) => return json!({"error": e.to_string()}),
 		};
-		let dirs = [vec!["test"], vec!["test", "sub"], vec!["tests", "sub"]];
+		let dirs = [vec!["test"], vec!["test", "sub"], vec!["tests", "sub"], vec!["OUT", "sub"]];
 		let verdicts: Vec<Value> = case["expect"]
 			.as_array()
 			.unwrap()
